@@ -16,6 +16,7 @@
 -/
 import QKV.Lemmas.Layers
 import QKV.Lemmas.LayersConcrete
+import QKV.Lemmas.LayerQObjects
 namespace QKV.Props.C11
 open QKV QKV.Layers
 
@@ -547,5 +548,155 @@ example : (1 : ℕ) * 2 + 2 ≤ 5 ∧ 0 < 2 * 2 := by omega
 example : (QSpec.bits { bits := 4, integer := 0, symmetric := true, keepNeg := true, alpha := none }).scalarFn
     = some (qbits .even { bits := 4, integer := 0, symmetric := true, keepNeg := true, alpha := none }) := rfl
 example : ∃ c : LCfg, c.hasQ 1 = true ∧ c.hasQ 3 = false := ⟨{ hasQ := fun s => s == 1 }, rfl, rfl⟩
+
+
+/-! ## 9. (strengthening round, seed C11-8) the quantizer OBJECTS a layer reports are the ones it applies.
+
+    §8 (`C11_reported_quantizers*`) reads the clause over quantizer SLOTS.  Python hands OBJECTS to the
+    constructor: one object may sit in several roles of a layer or in two layers, and the constructors switch
+    the kernel-type ones in place (`_set_trainable_parameter`).  `Model/LayerQObjects.lean` models that
+    plumbing over a heap of objects; the statements below hold for EVERY aliasing pattern of the arguments,
+    every heap (object states) and every later heap (any mutation after construction). -/
+section QuantizerObjects
+open QKV.Layers.QObj
+
+/-! ## 9. the quantizer OBJECTS a layer reports are the ones it applies -/
+
+theorem C11_reported_objects_are_applied (cls : Cls) (args : List (Option Nat)) (h : Heap) :
+    (constructLayer cls args h).1.quantizers = (constructLayer cls args h).1.internal ∧
+    (constructCell args h).1.quantizers = (constructCell args h).1.internal := ⟨rfl, rfl⟩
+
+theorem C11_reported_state_is_applied_state {T : Type} (n : Nat) (train : List Nat)
+    (args : List (Option Nat)) (h h' : Heap) (s : Nat) (val : QState → T → T) (w : T) :
+    ((construct n train args h).1.reportedState h' s) = ((construct n train args h).1.appliedState h' s) ∧
+    ((construct n train args h).1.reportedState h' s).map (fun q => val q w) =
+      ((construct n train args h).1.appliedState h' s).map (fun q => val q w) := ⟨rfl, rfl⟩
+
+theorem C11_reported_objects_in_slot_order (n : Nat) (train : List Nat) (args : List (Option Nat)) (h : Heap)
+    (s : Nat) (hs : s < n) : (construct n train args h).1.quantizers.getD s none = args.getD s none := by
+  rw [construct_obj]; exact construct_internal n train args h s hs
+
+theorem C11_shared_object_switched_in_every_role (n : Nat) (train : List Nat) (args : List (Option Nat))
+    (h : Heap) (t s o : Nat) (ht : t ∈ train) (htn : t < n) (hsn : s < n)
+    (hat : args.getD t none = some o) (has : args.getD s none = some o)
+    (hm : (h o).hasSetTrainable = true) (ha : (h o).alpha = none) :
+    (construct n train args h).1.appliedState (construct n train args h).2 s = some (h o).setTrainable ∧
+    (construct n train args h).1.reportedState (construct n train args h).2 s = some (h o).setTrainable ∧
+    (h o).setTrainable.alpha = some 0 := by
+  have hmem : some o ∈ train.map (fun s => ((List.range n).map fun s => args.getD s none).getD s none) := by
+    refine List.mem_map.mpr ⟨t, ht, ?_⟩
+    simp only [internal_getD, htn, if_true, hat]
+  have hheap : (construct n train args h).2 o = (h o).setTrainable := by
+    rw [construct_heap]; simp only [hmem, if_true]
+  have happ : (construct n train args h).1.appliedState (construct n train args h).2 s = some (h o).setTrainable := by
+    unfold LayerObj.appliedState
+    rw [construct_internal n train args h s hsn, has]
+    simp [hheap]
+  refine ⟨happ, ?_, setTrainable_alpha _ hm ha⟩
+  rw [← happ]; rfl
+
+theorem C11_unshared_object_untouched (n : Nat) (train : List Nat) (args : List (Option Nat)) (h : Heap) (o : Nat)
+    (hno : ∀ t ∈ train, t < n → args.getD t none ≠ some o) : (construct n train args h).2 o = h o := by
+  rw [construct_heap]
+  have : ¬ some o ∈ train.map (fun s => ((List.range n).map fun s => args.getD s none).getD s none) := by
+    intro hmem
+    obtain ⟨t, ht, he⟩ := List.mem_map.mp hmem
+    simp only [internal_getD] at he
+    by_cases htn : t < n
+    · simp only [htn, if_true] at he
+      exact hno t ht htn he
+    · simp only [htn, if_false] at he
+      exact absurd he (by simp)
+  simp only [this, if_false]
+
+theorem C11_object_shared_by_two_layers (nA nB : Nat) (trA trB : List Nat) (argsA argsB : List (Option Nat))
+    (h : Heap) (s t o : Nat) (hsn : s < nA) (ht : t ∈ trB) (htn : t < nB)
+    (hA : argsA.getD s none = some o) (hB : argsB.getD t none = some o)
+    (hm : (h o).hasSetTrainable = true) (ha : (h o).alpha = none) :
+    let rA := construct nA trA argsA h
+    let rB := construct nB trB argsB rA.2
+    rA.1.reportedState rB.2 s = rA.1.appliedState rB.2 s ∧
+    rA.1.appliedState rB.2 s = some (h o).setTrainable ∧ (h o).setTrainable.alpha = some 0 := by
+  intro rA rB
+  have hmem : some o ∈ trB.map (fun s => ((List.range nB).map fun s => argsB.getD s none).getD s none) := by
+    refine List.mem_map.mpr ⟨t, ht, ?_⟩
+    simp only [internal_getD, htn, if_true, hB]
+  have hB2 : rB.2 o = (rA.2 o).setTrainable := by
+    show (construct nB trB argsB rA.2).2 o = _
+    rw [construct_heap]; simp only [hmem, if_true]
+  have hA2 : (rA.2 o).setTrainable = (h o).setTrainable := by
+    show ((construct nA trA argsA h).2 o).setTrainable = _
+    rw [construct_heap]; split
+    · exact setTrainable_idem _
+    · rfl
+  refine ⟨rfl, ?_, setTrainable_alpha _ hm ha⟩
+  show (construct nA trA argsA h).1.appliedState rB.2 s = _
+  unfold LayerObj.appliedState
+  rw [construct_internal nA trA argsA h s hsn, hA]
+  simp [hB2, hA2]
+
+/-! ### seed C11-8 -/
+
+theorem C11_copy_on_share_invisible_without_sharing (args : List (Option Nat)) (h : Heap) (next : Nat)
+    (h0 : ∀ o, args.getD 0 none = some o → args.getD 2 none ≠ some o ∧ args.getD 3 none ≠ some o)
+    (h1 : ∀ o, args.getD 1 none = some o → args.getD 2 none ≠ some o ∧ args.getD 3 none ≠ some o) :
+    constructCellCopyOnShare args h next = constructCell args h := by
+  have e0 := setAutoScaling_unshared h next (args.getD 0 none) [args.getD 2 none, args.getD 3 none]
+    (by intro i hi; have := h0 i hi; simp only [List.getD_eq_getElem?_getD] at this; simpa using this)
+  unfold constructCellCopyOnShare
+  simp only [e0]
+  have e1 := setAutoScaling_unshared (setTrainableAt h (args.getD 0 none)) next (args.getD 1 none)
+    [args.getD 2 none, args.getD 3 none] (by intro i hi; have := h1 i hi; simp only [List.getD_eq_getElem?_getD] at this; simpa using this)
+  simp only [e1]
+  rfl
+
+
+theorem C11_copy_on_share_counterexample :
+    let r := constructCellCopyOnShare [some 0, some 0, some 0, none] (fun _ => qbits401) 1
+    r.1.reportedState r.2 0 = some qbits401 ∧
+    r.1.appliedState r.2 0 = some { qbits401 with alpha := some 0 } ∧
+    r.1.reportedState r.2 0 ≠ r.1.appliedState r.2 0 ∧
+    -- the unchanged constructor on the same arguments: one object, switched, in every role
+    (let u := constructCell [some 0, some 0, some 0, none] (fun _ => qbits401)
+     u.1.reportedState u.2 0 = u.1.appliedState u.2 0 ∧
+     u.1.appliedState u.2 2 = some { qbits401 with alpha := some 0 }) := by
+  decide
+
+/-- the seed's constructor is wrong for EVERY cell whose kernel object (alpha=None, own method) also sits in the bias or
+    state role, whatever the other arguments and the heap: it reports the untouched object (alpha=None) and applies a
+    copy with alpha='auto_po2' (`next` = the id of the copy, fresh: above every argument id) -/
+theorem C11_copy_on_share_breaks_every_shared_cell (args : List (Option Nat)) (h : Heap) (next o : Nat)
+    (hk : args.getD 0 none = some o)
+    (hshare : args.getD 2 none = some o ∨ args.getD 3 none = some o)
+    (hm : (h o).hasSetTrainable = true) (ha : (h o).alpha = none)
+    (hfresh : ∀ s o', args.getD s none = some o' → o' < next) :
+    ((constructCellCopyOnShare args h next).1.reportedState (constructCellCopyOnShare args h next).2 0).map (·.alpha)
+      = some none ∧
+    ((constructCellCopyOnShare args h next).1.appliedState (constructCellCopyOnShare args h next).2 0).map (·.alpha)
+      = some (some 0) := by
+  unfold constructCellCopyOnShare LayerObj.reportedState LayerObj.appliedState
+  simp only [List.getD_eq_getElem?_getD] at hk hshare hfresh ⊢
+  have hon : o < next := hfresh 0 o hk
+  have hany : [args[2]?.getD none, args[3]?.getD none].any (· == some o) = true := by
+    rcases hshare with e | e
+    · simp only [List.any_cons, e]; simp
+    · simp only [List.any_cons, e]; simp
+  have e0 : setAutoScaling h next (some o) [args[2]?.getD none, args[3]?.getD none] =
+      (some next, Heap.set h next (h o).setTrainable, next + 1) := by
+    unfold setAutoScaling; simp only [hm, hany, if_true]
+  have hne1 : o ≠ next + 1 := by omega
+  have hne : o ≠ next := by omega
+  have ho := setAutoScaling_heap_other (Heap.set h next (h o).setTrainable) (next + 1) (args[1]?.getD none)
+    [args[2]?.getD none, args[3]?.getD none] o (fun _ => hany) hne1
+  have hn := setAutoScaling_heap_other (Heap.set h next (h o).setTrainable) (next + 1) (args[1]?.getD none)
+    [args[2]?.getD none, args[3]?.getD none] next
+    (fun e => absurd (hfresh 1 next e) (Nat.lt_irrefl _)) (by omega)
+  simp only [hk, e0, List.getD_cons_zero, Option.map_some, ho, hn]
+  constructor
+  · simp only [List.getElem?_cons_zero, Option.getD_some, Option.map_some, ho]; simp [Heap.set, hne, ha]
+  · simp only [List.getElem?_cons_zero, Option.getD_some, Option.map_some, hn]; simp [Heap.set, setTrainable_alpha _ hm ha]
+
+
+end QuantizerObjects
 
 end QKV.Props.C11
